@@ -22,8 +22,8 @@ History
 * `applyWrites_comm`, `target_order_irrelevant`   generating targets in any order leaves the same files, when different targets write
                                     different paths
 -/
-namespace Pydjinni.Sys
-open Pydjinni.Gen
+namespace Pydjinni.SysC
+open Pydjinni.GenC
 
 /-! ### sorting -/
 
@@ -388,4 +388,4 @@ theorem target_order_irrelevant (outs : T → List (Path × κ)) (ts ts' : List 
     rw [ih₁ hd m]
     exact ih₂ (fun a ha b hb => hd a (h₁.symm.subset ha) b (h₁.symm.subset hb)) m
 
-end Pydjinni.Sys
+end Pydjinni.SysC
